@@ -8,7 +8,7 @@
 (*   files : [FileId -> [dir : Dir, name : STRING, items : Seq(Item)]]     *)
 (* and a translation unit (entry) is                                       *)
 (*   [file : FileId, defs : [Macro -> Val], idirs : Seq(Dir),              *)
-(*    forced : Seq(STRING)]                                                 *)
+(*    forced : Seq(STRING), cwd : Dir]                                      *)
 (* Items ("k" is the kind):                                                *)
 (*   [k|->"code"]                                                          *)
 (*   [k|->"if", c|->Cond] [k|->"elif", c|->Cond] [k|->"else"] [k|->"endif"]*)
@@ -88,7 +88,9 @@ MaxDepth == 6
 
 InitState(files, e) ==
   LET main == files[e.file]
-      fr(i) == Resolve(files, "q", e.forced[i], main.dir, e.idirs)
+      \* -include f is searched like #include "f", but starting from the compiler's working
+      \* directory (e.cwd) instead of the directory of the main file
+      fr(i) == Resolve(files, "q", e.forced[i], e.cwd, e.idirs)
       forced == [i \in 1..Len(e.forced) |-> fr(i)]
       found == SelectSeq(forced, LAMBDA f : f # None)
   IN [defs |-> e.defs, once |-> {}, todo |-> found \o <<e.file>>, frames |-> <<>>,
